@@ -18,7 +18,7 @@ RULE = ('case = history without forcing/failure/deletion: 1-4 sessions (real pro
 REQUIRED = ['chains_on_shared_registry', 'name_mode_histories', 'histories', 'values_observed', 'runs_observed', 'inspections', 'prov_loaded', 'prov_in_memory', 'prov_loaded_other_process',
             'loads_with_missing_upstream', 'locations_run_once_checked']
 ASSUMPTIONS = ['sequential histories (concurrent processes computing the same task are outside the statement)',
-               'which inputs a generated run reads is fixed by its spec (all declared inputs)']
+               'which inputs a generated run reads is fixed by its spec (all declared inputs, or all but one that is read from the registry only under a condition that does not hold)']
 BUDGET = {'quick': 75, 'thorough': 1500}
 WANT = {'C04', 'C08'}
 OPTS = {'max_sessions': 4, 'max_chains': 4, 'max_requests': 6, 'p_inspect': 0.3, 'p_force': 0.0, 'p_fault': 0.0, 'p_spawn': 0.1, 'p_shared_registry': 0.2}
@@ -28,7 +28,7 @@ def run_case(case) -> CaseResult:
     res = CaseResult()
     rng = random.Random(case['seed'])
     for i in range(case['n']):
-        run_history_case(rng, res, WANT, OPTS, at_most_once=True, name_mode=rng.random() < 0.2)
+        run_history_case(rng, res, WANT, OPTS, feat={'partial_reads': True}, at_most_once=True, name_mode=rng.random() < 0.2)
         if len(res.violations) > 3:
             break
     return res
